@@ -166,6 +166,21 @@ pub fn exec_c15(plan: &C15Plan, st: &mut Stats) -> Option<Violation> {
                 concat.len()
             )
         };
+        // An early-ended picture (fewer macroblocks than its size implies) is judged only
+        // where both deliveries accept it: the statement speaks of valid pictures and does
+        // not say that a decoder has to accept a picture whose data stops early when
+        // another picture follows (Sorenson mode never does).  What IS judged: when the
+        // stream call succeeds the picture is the one its own reader gives, and the reader
+        // is left at the end of that picture's data, i.e. the FOLLOWING pictures decode as
+        // in their own readers.
+        let early = spec.map(|s| s.mbs.len() < s.mb_count()).unwrap_or(false);
+        if early && (oa.class() != ob.class() || !ob.is_ok()) {
+            st.inc(if oa.class() != ob.class() { "early_ended_picture_outcome_differs_not_judged" } else { "early_ended_picture_rejected_by_both" });
+            return None; // the stream's reader is not past this picture: nothing more to compare
+        }
+        if early {
+            st.inc(if i + 1 < n { "probe.early_ended_picture_followed_by_a_start_code" } else { "probe.early_ended_last_picture" });
+        }
         if oa.class() != ob.class() {
             return viol(
                 "stream call result differs from the per-picture reader",
@@ -266,6 +281,8 @@ pub fn gen_c15(rng: &mut Rng, tier: Tier) -> C15Plan {
     let mut tr = rng.byte();
     // two decoders taking turns on the one reader, in one stream out of eight
     let two = !long && rng.chance(1, 8);
+    // one stream in five contains early-ended predicted pictures
+    let early_stream = rng.chance(1, 5);
     let assign: Vec<u8> = if two { (0..n).map(|_| rng.below(2) as u8).collect() } else { vec![] };
     let mut has_ref2 = [false, false];
     let mut has_ref = false;
@@ -293,7 +310,17 @@ pub fn gen_c15(rng: &mut Rng, tier: Tier) -> C15Plan {
             ptype = PType::I;
         }
         let flq = requalify(rng, &fl, w, h);
-        let s = gen_picture(rng, &cfg, flq, ptype, w, h, tr);
+        let mut s = gen_picture(rng, &cfg, flq, ptype, w, h, tr);
+        // EARLY-ENDED predicted pictures (C03's "early end of data"; the resynchronisation
+        // arm of the macroblock loop is one of C15's anchors): the macroblock data stops
+        // after k < all macroblocks and is followed, like any picture, by fewer than eight
+        // zero bits and the next start code.  In standard mode anywhere in the stream (the
+        // decoder resynchronises on the start code); in Sorenson mode, which never
+        // resynchronises, only as the last picture (ended by the end of data).
+        if early_stream && ptype != PType::I && (!cfg.is_sorenson() || k + 1 == n) && !s.mbs.is_empty() && rng.bool() {
+            let keep = if rng.chance(1, 4) { s.mbs.len() - 1 } else { rng.usize(s.mbs.len()) };
+            s.mbs.truncate(keep);
+        }
         if ptype != PType::Disposable {
             has_ref = true;
             has_ref2[d] = true;
@@ -381,7 +408,7 @@ impl Property for C15 {
     type Plan = C15Plan;
     const ID: &'static str = "C15";
     const LEVEL: &'static str = "exploration";
-    const RULE: &'static str = "seeded streams of 1-6 valid pictures (any types, Sorenson v0/v1/other with size changes at intra pictures, standard PTYPE and PLUSPTYPE), each ending at an arbitrary bit phase (varied by PEI bytes and MCBPC stuffing) and padded with fewer than eight zero bits, concatenated into one source (byte-padded, or bit-contiguous with the next start code inside the byte where the previous picture ended; one stream in 100 has 20-80 pictures, a sweep pushes 66 000 pictures through one reader; sometimes two decoders take turns on the one reader, and the user commits / peeks / parses a header in a look-ahead / cleans up between calls); delivered whole, at picture boundaries, or with an arbitrary part of the following pictures, in chunks of 1..4096 bytes completed before the call that needs them, with EINTR sprinkled. Decoder A calls on the one reader, twin B uses one reader per picture; every call must agree in result, header and planes; further calls on the exhausted stream must report end of data and change nothing. evaluations = decode calls on the stream. A case is non-trivial if it is a picture boundary (picture i accepted and followed by picture i+1 in the same reader); distinct by the two pictures' bytes.";
+    const RULE: &'static str = "seeded streams of 1-6 valid pictures (any types, Sorenson v0/v1/other with size changes at intra pictures, standard PTYPE and PLUSPTYPE), each ending at an arbitrary bit phase (varied by PEI bytes and MCBPC stuffing) and padded with fewer than eight zero bits, concatenated into one source (byte-padded, or bit-contiguous with the next start code inside the byte where the previous picture ended; one stream in 100 has 20-80 pictures, a sweep pushes 66 000 pictures through one reader; sometimes two decoders take turns on the one reader, and the user commits / peeks / parses a header in a look-ahead / cleans up between calls; one stream in five contains EARLY-ENDED predicted pictures, whose macroblock data stops after any macroblock - anywhere in a standard-mode stream, where the decoder resynchronises on the next start code, and as the last picture of a Sorenson stream - judged only where both deliveries accept them); delivered whole, at picture boundaries, or with an arbitrary part of the following pictures, in chunks of 1..4096 bytes completed before the call that needs them, with EINTR sprinkled. Decoder A calls on the one reader, twin B uses one reader per picture; every call must agree in result, header and planes; further calls on the exhausted stream must report end of data and change nothing. evaluations = decode calls on the stream. A case is non-trivial if it is a picture boundary (picture i accepted and followed by picture i+1 in the same reader); distinct by the two pictures' bytes.";
     fn runs(tier: Tier) -> u64 {
         match tier {
             Tier::Quick => 100_000,
@@ -455,6 +482,7 @@ impl Property for C15 {
             "twin oracle: the per-picture reader defines what each picture decodes to (absolute correctness of a picture is C02/C03 territory)".into(),
             "bytes are always completely delivered before the call that needs them; partial availability is C05/C03 territory".into(),
             "no stuffing codewords after the last macroblock (the statement speaks of zero padding bits only)".into(),
+            "an early-ended picture is judged only where the stream call and its own reader both accept it (the statement speaks of valid pictures); what is judged then: same picture, and the following pictures of the stream decode as in their own readers (reader left at the end of the picture's data)".into(),
         ]
     }
     fn probe_names() -> Vec<&'static str> {
@@ -479,6 +507,8 @@ impl Property for C15 {
             "user_commit_between_calls",
             "user_peek_between_calls",
             "user_parse_picture_between_calls",
+            "early_ended_picture_followed_by_a_start_code",
+            "early_ended_last_picture",
         ]
     }
 }
